@@ -9,6 +9,7 @@
 -/
 import QlibcModel.Tree.History
 import QlibcModel.Tree.ByteCmp
+import QlibcModel.Shapes.Tree
 
 namespace Qlibc.Props.C01
 open Qlibc Qlibc.Tree Qlibc.Tree.T
